@@ -138,7 +138,7 @@ class Execution:
             if i < len(self.choices):
                 c = self.choices[i]
                 if c >= len(enabled):
-                    raise RuntimeError(f"replay divergence at point {i}: choice {c} of {len(enabled)}")
+                    raise Divergence(f"replay divergence at point {i}: choice {c} of {len(enabled)}")
             else:
                 c = 0
             pid, variant = enabled[c]
@@ -169,6 +169,12 @@ class Execution:
         return self
 
 
+class Divergence(RuntimeError):
+    """A recorded schedule prefix could not be replayed: the code under test did not behave as in the execution the prefix was
+    taken from.  With every source of nondeterminism owned by the harness and the world reset between executions, this means
+    state kept inside the library from one execution to the next."""
+
+
 def alt_cost(enabled, c, running_enabled):
     """Deviation cost of taking alternative c: a preemption of a runnable thread, a lock time-out or a crash costs 1;
     choosing among threads when the running one is finished or blocked is free."""
@@ -180,7 +186,7 @@ def alt_cost(enabled, c, running_enabled):
     return 1 if running_enabled else 0
 
 
-def explore(make_execution, bound, check, root_filter=None, stats=None):
+def explore(make_execution, bound, check, root_filter=None, stats=None, on_divergence=None):
     """Enumerate every execution with at most `bound` deviations.
 
     make_execution(choices) -> finished Execution;  check(execution) is called once per execution.
@@ -192,7 +198,14 @@ def explore(make_execution, bound, check, root_filter=None, stats=None):
     stats.setdefault("points", 0)
 
     def visit(prefix, is_root=False):
-        x = make_execution(prefix)
+        try:
+            x = make_execution(prefix)
+        except Divergence as e:
+            if on_divergence is None:
+                raise
+            on_divergence(prefix, e)        # reported by the caller; nothing below this prefix can be explored
+            stats["divergences"] = stats.get("divergences", 0) + 1
+            return
         if not is_root or root_filter is None or root_filter(-1):
             stats["executions"] += 1
             stats["points"] += len(x.points)
